@@ -11,6 +11,7 @@ package evaluator
 //@ global !wraps(ErrIndexValue, ErrBounds) && !wraps(ErrBounds, ErrIndexValue) && !wraps(ErrSlice, ErrBounds) && !wraps(ErrSlice, ErrIndexValue)
 
 //@ typeinv arrayVal: self.Elements != nil && forall(j, int, 0 <= j && j < len(*self.Elements) ==> okValue((*self.Elements)[j]))
+//@ typeinv mapVal: self.Order != nil && self.Pairs != nil && forall(i, int, 0 <= i && i < len(*self.Order) ==> has(self.Pairs, (*self.Order)[i]))
 //@ typeinv stringVal: base(self.runeSlice) == 0 || (len(self.runeSlice) == rlen(self.V) && off(self.runeSlice) == 0 && contents(self.runeSlice) == runes(self.V))
 
 // ---- spec functions (docs/spec.md, Index and Slice) ----
@@ -21,7 +22,7 @@ package evaluator
 //@ pure normOf(v float64, n int) int = ite(int(v) < 0, n+int(v), int(v))
 //@ pure isBasic(x value) bool = is(x, *numVal) || is(x, *stringVal) || is(x, *boolVal)
 //@ pure isComposite(x value) bool = is(x, *arrayVal) || is(x, *mapVal)
-//@ pure isValue(x value) bool = (isBasic(x) || isComposite(x) || is(x, *anyVal)) && ref(x) != 0
+//@ pure isValue(x value) bool = (isBasic(x) || isComposite(x) || is(x, *anyVal)) && allocated(x)
 
 //@ func normalizeIndex(idx value, length int, indexType indexType) (r int, err error)
 //@   props C11 C02
@@ -120,6 +121,7 @@ package evaluator
 //@   loop 1 invariant fresh(elements) && off(elements) == 0 && len(elements) == endIdx-startIdx
 //@   loop 1 invariant forall(j, int, 0 <= j && j < i-startIdx ==> copyRel(elements[j], (*a.Elements)[startIdx+j]))
 //@   loop 1 invariant forall(j, int, 0 <= j && j < i-startIdx && !isComposite((*a.Elements)[startIdx+j]) ==> fresh(elements[j]))
+//@   loop 1 invariant forall(j, int, 0 <= j && j < i-startIdx ==> okValue(elements[j]))
 //@   loop 1 modifies elements[*]
 //@   loop 1 decreases endIdx - i
 
